@@ -228,7 +228,7 @@ def evaluate(task, target, job, parsed, report, failed_ops=None):
         cls = classify_call(ft[0], ft[1], args, spec, impl)
         if cls is None:
             cnt["agree"] += 1
-        elif (tolerant or spec[2]) and cls in ("wrong-value", "nan-operand", "nan-result"):
+        elif (tolerant or spec[2]) and cls in ("wrong-value", "nan-operand", "nan-result", "zero-sign"):
             cnt["skipped_nan_bits"] += 1
         else:
             sig_label, sig_cls = label, cls
@@ -246,7 +246,8 @@ def evaluate(task, target, job, parsed, report, failed_ops=None):
             else:
                 case = dict(case0, module=d, calls=allcalls[:k + 1], labels=alllabels[:k + 1], label=label)
             report(f"{target}:{sig_label}:{sig_cls}", what, case, impl=impl, spec=list(spec))
-        tolerant = tolerant or bool(spec[2])
+        if not task.get("stateless"):
+            tolerant = tolerant or bool(spec[2])      # NaN bits may sit in memory / globals from now on
         if impl[0] == "timeout" or impl[0].startswith("crash-"):
             if not task.get("stateless"):
                 return cnt
@@ -276,7 +277,7 @@ def evaluate(task, target, job, parsed, report, failed_ops=None):
             cls = classify_call([], [g[0]], [], ("v", [sb], False, 0), ig)
             if cls is None:
                 cnt["agree"] += 1
-            elif tol and cls in ("wrong-value", "nan-result"):
+            elif tol and cls in ("wrong-value", "nan-result", "zero-sign"):
                 cnt["skipped_nan_bits"] += 1
             else:
                 report(f"{target}:{name0}:global-{g[0]}-{cls}", f"exported global {gi} ({g[0]}): ppci {ig}, specification bits {sb}", dict(case, glob=gi))
